@@ -24,14 +24,14 @@ func c13Handlers(c *vk.Ctx) {
 				case small[base] && wrap <= 2:
 					// deviation bound: any non-default choice costs one (the order in which the goroutines
 					// of a session notice the cancellation is decided by such choices)
-					add(base, wrap, end, 1, vk.Pick(c, 3, 4), true, vk.Pick(c, 120.0, 900.0))
+					add(base, wrap, end, 1, vk.Pick(c, 3, 4), true, vk.Pick(c, 120.0, 300.0))
 				case small[base] && wrap == 4:
-					add(base, wrap, end, 1, vk.Pick(c, 2, 3), true, vk.Pick(c, 120.0, 900.0))
+					add(base, wrap, end, 1, vk.Pick(c, 2, 3), true, vk.Pick(c, 120.0, 300.0))
 				case small[base]: // deep middleware stacks: many goroutines per session
-					add(base, wrap, end, 1, vk.Pick(c, 1, 2), true, vk.Pick(c, 120.0, 900.0))
+					add(base, wrap, end, 1, vk.Pick(c, 1, 2), true, vk.Pick(c, 120.0, 300.0))
 				default:
-					add(base, wrap, end, 1, vk.Pick(c, 0, 1), false, vk.Pick(c, 60.0, 900.0)) // every cut point (+ delays)
-					add(base, wrap, end, 1, vk.Pick(c, 1, 2), true, vk.Pick(c, 60.0, 900.0))
+					add(base, wrap, end, 1, vk.Pick(c, 0, 1), false, vk.Pick(c, 60.0, 300.0)) // every cut point (+ delays)
+					add(base, wrap, end, 1, vk.Pick(c, 1, 2), true, vk.Pick(c, 60.0, 300.0))
 				}
 			}
 		}
@@ -39,14 +39,14 @@ func c13Handlers(c *vk.Ctx) {
 	// every provided middleware singly over the router
 	for wrap := 6; wrap < len(harness.C13WrapNames); wrap++ {
 		for end := 0; end < 3; end++ {
-			add(2, wrap, end, 1, vk.Pick(c, 2, 3), true, vk.Pick(c, 120.0, 900.0))
+			add(2, wrap, end, 1, vk.Pick(c, 2, 3), true, vk.Pick(c, 120.0, 300.0))
 		}
 	}
 	// stalled peer after 0 and 2 reads
 	for _, base := range []int{2, 3, 4} {
 		for _, k := range []int{0, 2} {
-			add(base, 0, 1, k, vk.Pick(c, 2, 3), true, vk.Pick(c, 60.0, 900.0))
-			add(base, 4, 1, k, vk.Pick(c, 1, 2), true, vk.Pick(c, 60.0, 900.0))
+			add(base, 0, 1, k, vk.Pick(c, 2, 3), true, vk.Pick(c, 60.0, 300.0))
+			add(base, 4, 1, k, vk.Pick(c, 1, 2), true, vk.Pick(c, 60.0, 300.0))
 		}
 	}
 	c.P.Rule = "E1: real handler compositions (8 bases: Default, Cache, Router, merges of them, SQLite in memory, the composition of cmd/mocrelay) x wrappers (none, MaxSubscriptions, unique filters, NIP-11 chain, Prometheus, a 3-deep stack; every provided middleware singly over the router) serving the client history [REQ, EVENT, COUNT, CLOSE, REQ] while a second connection publishes; the session is ended by an environment task that is enabled from the start (every cut point of the history is reached at bound 0), by cancel with a draining or stalled peer, or by closing the inbound channel; schedules: complete up to the stated deviation bound (any non-default scheduling choice counts one) or delay bound per job; oracle at quiescence: ServeNostr returned, no task spawned under the session alive, router registry and Prometheus gauges back to their previous values"
